@@ -30,6 +30,9 @@ CHECKS = {
  "C16": dict(cat="model_checking", ref="§3 C16",
    text="(a) For every pair of policy sets (quick: 17×17 representatives, thorough: all version sets × all 16 flag combinations) and every offer form (literal queries incl. unknown versions and v1, the peer's own query, whitespace tags for every version set at start/middle/end, direct v2/v3 DH-Commit, v1 key exchange) the exchange is executed to quiescence on the real conversations and compared step by step with the reference model chosen = max(offered ∩ mine), session ⇔ chosen allowed by the peer; the version field of every emitted message is checked against the emitter's policy. (b) Every text of length ≤ 8/9 over {a, space, tab, ?} and every concatenation of ≤ 3 atoms around the whitespace tag, minus texts containing an OTR marker, must pass Send→Receive byte-exact under 4×3 policy combinations, OTR-disabled included.",
    tech="exhaustive enumeration of configurations and inputs, each trace executed on the implementation and compared with a reference negotiation model"),
+ "C15": dict(cat="model_checking", ref="§3 C15",
+   text="Receiver in each state of an honest v3 exchange (fresh, after every handshake step in both roles, encrypted, after traffic, finished) × every sequence of ≤ 2 messages from {DH-Commit, DH-Key, Reveal-Sig, Sig, data, fragment} × 6 sender tags × 4 receiver tags, built from genuine traffic with rewritten tags; a lock-step reference model of the tag binding classifies each message (ours / foreign / malformed) and the implementation must give no plaintext, no reply (an OTR error only for malformed ones), an unchanged state hash and an unchanged binding; single hostile messages are also followed by the genuine continuation and compared differentially with the run without them. Own-tag generation under every scripted answer sequence ≤ 3 of the randomness source, and ExtractInstanceTags on every message and fragment built.",
+   tech="exhaustive enumeration of message sequences executed on the implementation in lock-step with a reference binding model (state-hash and differential-continuation oracles)"),
 }
 NA_REASON = "check not built yet (work in progress; see DESIGN.md §3 for the planned bounded exploration)"
 def main():
